@@ -208,8 +208,9 @@ def run_exec(ck, pidnum, bias, quick_n=500, thorough_n=12000, tiny=None, extra=N
         ck.count(case_key(c), nontrivial(c))
     for c in cases[ncorpus:ncorpus + 1] + cases[-2:]:
         ck.sample(strip(c))
-    for what, c in concrete:
-        ck.violation(what, strip(shrink_prefix(c, pidnum)))
+    for k, (what, c) in enumerate(concrete):
+        # shrinking costs one Coq run per prefix: only the reported input (the first) and one more are shrunk
+        ck.violation(what, strip(shrink_prefix(c, pidnum) if k < 2 else c))
     for what, c, detail in mism:
         ck.mismatch(what, c, detail)
     dist = Counter()
